@@ -30,6 +30,106 @@ class NumText:
     def __str__(self):
         return "<num:%s>" % self.cls
 
+    # -- the text of repr(float) as a string (kind 'pyrepr'), as far as file_writer_xml.float_to_str uses it ----------
+    # Trusted text model (listed in the evidence; its three facts are evaluated on real floats by the bounded layer):
+    #   T1  the text is in exponent form  <=>  f != 0 and (|f| < 1e-4 or |f| >= 1e16)
+    #   T2  otherwise it is  <sign><integer digits>.<fraction digits>  (exactly one '.') and denotes f
+    #   T3  format(f, '.<d>f') is plain decimal text denoting f rounded to d decimals (an integer-valued float exactly)
+    def exp_form(self):
+        import z3
+        from .core import real_term
+
+        v = real_term(self.value)
+        a = z3.If(v >= 0, v, -v)
+        return z3.And(v != 0, z3.Or(a < z3.Q(1, 10000), a >= z3.RealVal(10 ** 16)))
+
+    def split(self, sep=None, maxsplit=-1):
+        from .core import Unsupported
+
+        if self.cls != "pyrepr" or sep != "." or maxsplit != -1:
+            raise Unsupported("split(%r) of a number text of kind %s" % (sep, self.cls))
+        return [ReprPart(self, "int"), ReprPart(self, "frac", None)]
+
+    def partition(self, sep):
+        from .core import Unsupported
+
+        if self.cls != "pyrepr" or sep != ".":
+            raise Unsupported("partition(%r) of a number text of kind %s" % (sep, self.cls))
+        return (ReprPart(self, "int"), ".", ReprPart(self, "frac", None))
+
+
+class ReprPart:
+    """integer digits (with sign) / fraction digits (optionally only the first d) of the non-exponent repr of a float"""
+
+    def __init__(self, text, part, digits=None):
+        self.text, self.part, self.digits = text, part, digits
+
+    def __getitem__(self, i):
+        from .core import Unsupported
+
+        if self.part == "frac" and self.digits is None and isinstance(i, slice) and i.start is None and i.step is None and isinstance(i.stop, int) \
+                and not isinstance(i.stop, bool) and i.stop >= 0:
+            return ReprPart(self.text, "frac", i.stop)
+        raise Unsupported("index %r into the %s digits of a number text" % (i, self.part))
+
+    def __add__(self, other):
+        return ReprCat([self])._cat(other)
+
+    def __radd__(self, other):
+        return ReprCat([other])._cat(self)
+
+
+class ReprCat:
+    def __init__(self, items):
+        self.items = items
+
+    def _cat(self, other):
+        return ReprCat(self.items + (other.items if isinstance(other, ReprCat) else [other])).simplify()
+
+    __add__ = _cat
+
+    def __radd__(self, other):
+        return ReprCat([other] + self.items).simplify()
+
+    def simplify(self):
+        """<integer digits> '.' <first d fraction digits> of the same text: the number truncated towards zero to d decimals
+        (if the text is in exponent form the parts mean something else: the value is then left unconstrained)"""
+        import z3
+        from .core import Sym, real_term
+
+        it = self.items
+        if len(it) == 3 and isinstance(it[0], ReprPart) and it[0].part == "int" and it[1] == "." and isinstance(it[2], ReprPart) \
+                and it[2].part == "frac" and it[2].text is it[0].text:
+            t = it[0].text
+            v = real_term(t.value)
+            d = it[2].digits
+            if d is None:
+                val = v
+            elif d == 0:
+                return self  # "12." is not a number text
+            else:
+                k = 10 ** d
+                ctx = getattr(t, "ctx", None)
+                if ctx is None:
+                    val = z3.If(v >= 0, z3.ToReal(z3.ToInt(v * k)), -z3.ToReal(z3.ToInt(-v * k))) / k
+                else:
+                    # floor(|v| * 10^d) as an integer constant with its defining (unique) constraints: linear for the solver
+                    n = ctx.fresh("trunc_digits", int).t
+                    a = z3.If(v >= 0, v, -v) * k
+                    ctx.solver.add(z3.ToReal(n) <= a, a < z3.ToReal(n) + 1)
+                    val = z3.If(v >= 0, z3.ToReal(n), -z3.ToReal(n)) / k
+            _N[0] += 1
+            free = z3.Real("repr_parts_of_exponent_text!%d" % _N[0])
+            out = NumText(Sym(z3.If(t.exp_form(), free, val), float), "plain", t.src, note="truncated repr")
+            out.plain_if = z3.Not(t.exp_form())  # the parts of an exponent-form text do not make a decimal number
+            if d is not None and ctx is not None:
+                out.scaled = (z3.If(v >= 0, n, -n), k)  # value == scaled[0] / scaled[1] when the text is not in exponent form (hint for the solver)
+            return out
+        return self
+
+
+_N = [0]
+
 
 class XElem:
     """an element of an abstract XML tree"""
